@@ -26,12 +26,13 @@ func init() {
 }
 
 type c09Source struct {
-	data   []byte
-	pos    int
-	chunk  int
-	hiccup bool // one transient EOF after the first chunk
-	pause  bool // a pause of 400 ms before the third read (inside a frame when the chunks are small)
-	reads  int
+	data    []byte
+	pos     int
+	chunk   int
+	withEOF bool // the call that returns the last bytes reports io.EOF as well
+	hiccup  bool // one transient EOF after the first chunk
+	pause   bool // a pause of 400 ms before the third read (inside a frame when the chunks are small)
+	reads   int
 }
 
 func (s *c09Source) Read(p []byte) (int, error) {
@@ -51,6 +52,9 @@ func (s *c09Source) Read(p []byte) (int, error) {
 	}
 	n := copy(p, s.data[s.pos:end])
 	s.pos += n
+	if s.withEOF && s.pos >= len(s.data) {
+		return n, io.EOF
+	}
 	return n, nil
 }
 
@@ -139,6 +143,8 @@ func VerifC09_FanOut() {
 	verifSchedule(mode, 1)
 	in := c09Input()
 	want := c09Sequential(in)
+	// chunks of one byte, of two bytes with the last one reported together
+	// with io.EOF (the io.Reader contract allows both), or everything at once
 	chunk := []int{1, 2, 64}[verifParam("chunk", 0, 2)]
 	caps := [][2]int{{0, 2}, {1, 0}, {0, 0}}[verifParam("capacities", 0, 2)]
 	chA := make(chan rtcm.Message, caps[0])
@@ -162,7 +168,7 @@ func VerifC09_FanOut() {
 	pause := verifParam("stall", 0, 1) == 1
 	core := New(cfg, []chan rtcm.Message{chA, nil, chB})
 	verifWitness("reached")
-	ret := core.HandleMessagesUntilEOF(verifTimeOf(1676376000*1000000000), bufio.NewReader(&c09Source{data: in, chunk: chunk, hiccup: hiccup, pause: pause}))
+	ret := core.HandleMessagesUntilEOF(verifTimeOf(1676376000*1000000000), bufio.NewReader(&c09Source{data: in, chunk: chunk, hiccup: hiccup, pause: pause, withEOF: chunk == 2}))
 	verifWitness("returned")
 	verifAssert("returns-continue-on-end-of-input", ret == 0)
 	// the caller owns the consumer channels: close them and let everything
